@@ -191,6 +191,15 @@ pub fn pool_body(sc: PoolScenario, obs: Arc<Mutex<PoolObs>>) {
     }
     ctl::settle();
     ctl::window(false);
+    let missing = {
+        let o = obs.lock().unwrap();
+        o.started.len() < o.dispatched
+    };
+    if missing {
+        // grace as in the server seam: 3 virtual seconds, then look again
+        ctl::sleep(Duration::from_millis(3000));
+        ctl::settle();
+    }
     {
         let snap = pool.verif_snapshot();
         let mut o = obs.lock().unwrap();
@@ -311,12 +320,27 @@ pub fn srv_body(sc: SrvScenario, obs: Arc<Mutex<SrvObs>>) {
     ctl::settle();
     ctl::window(false);
     {
-        let mut answered = Vec::new();
-        for c in &clients {
-            let d = c.drain();
-            let all: Vec<u8> = d.segments.concat();
-            let st = crate::httpparse::parse_stream(&all, &[false]);
-            answered.push(st.error.is_none() && st.finals().len() == 1 && st.finals()[0].status == 200 && !d.eof);
+        let mut seen: Vec<Vec<u8>> = vec![Vec::new(); clients.len()];
+        let mut eofs = vec![false; clients.len()];
+        let mut look = |seen: &mut Vec<Vec<u8>>, eofs: &mut Vec<bool>| -> Vec<bool> {
+            let mut answered = Vec::new();
+            for (i, c) in clients.iter().enumerate() {
+                let d = c.drain();
+                seen[i].extend(d.segments.concat());
+                eofs[i] = eofs[i] || d.eof;
+                let st = crate::httpparse::parse_stream(&seen[i], &[false]);
+                answered.push(st.error.is_none() && st.finals().len() == 1 && st.finals()[0].status == 200 && !eofs[i]);
+            }
+            answered
+        };
+        let mut answered = look(&mut seen, &mut eofs);
+        if answered.iter().any(|a| !a) {
+            // no statement bounds how soon: an implementation may pace its accept loop
+            // (legit-changes/H-change3).  Grace: 3 virtual seconds (below the idle period of
+            // surplus workers), then look again; all other connections are still open.
+            ctl::sleep(Duration::from_millis(3000));
+            ctl::settle();
+            answered = look(&mut seen, &mut eofs);
         }
         let mut o = obs.lock().unwrap();
         o.answered = answered;
@@ -472,7 +496,7 @@ impl Check for C08 {
     }
     fn rule(&self, tier: Tier) -> String {
         format!(
-            "(a) real TaskPool: initial state {{fresh, all 4 idle, 1/3/4 workers busy for ever, surplus workers idle in their timed wait, surplus workers whose 5 s idle timeout is due, surplus workers retired after 6 s of idleness}} x dispatch pattern {{one burst of 1,2,3,4,5,6,8 tasks; two bursts (1,4) (4,1) (2,3) (4,4) (3,3) separated by quiescence, the first burst's tasks finishing in between or not}}; every task records its start and then stays open on a harness gate; (b) real Server with N in {{1,4,5,6,8,32,1100{}}} keep-alive connections (in one burst and as 1100 + 60; bursts of 1100 and 1100 + 60 tasks on the pool; thorough: 4200, 2 x 2100) sending one request each and staying open, in one burst or two; {} scenarios, explored for all schedules with at most {} deviations (strict costs; a spurious return from a condition-variable wait is one of the deviations), window = the burst; oracle at quiescence: every dispatched task has started / every connection has its response while all others are still open, each task started once, one open task per worker; non-trivial = all",
+            "(a) real TaskPool: initial state {{fresh, all 4 idle, 1/3/4 workers busy for ever, surplus workers idle in their timed wait, surplus workers whose 5 s idle timeout is due, surplus workers retired after 6 s of idleness}} x dispatch pattern {{one burst of 1,2,3,4,5,6,8 tasks; two bursts (1,4) (4,1) (2,3) (4,4) (3,3) separated by quiescence, the first burst's tasks finishing in between or not}}; every task records its start and then stays open on a harness gate; (b) real Server with N in {{1,4,5,6,8,32,1100{}}} keep-alive connections (in one burst and as 1100 + 60; bursts of 1100 and 1100 + 60 tasks on the pool; thorough: 4200, 2 x 2100) sending one request each and staying open, in one burst or two; {} scenarios, explored for all schedules with at most {} deviations (strict costs; a spurious return from a condition-variable wait is one of the deviations), window = the burst; oracle at quiescence (or, if something is still missing then, 3 virtual seconds later: no statement bounds how soon): every dispatched task has started / every connection has its response while all others are still open, each task started once, one open task per worker; non-trivial = all",
             if tier == Tier::Thorough { ",64,2100" } else { "" }, items(tier).len(), if tier == Tier::Thorough { "3 (<= 2 tasks) / 2 (<= 6 tasks) / 1 (pool), 2 (server N<=5) / 1 (N<=8) / 0" } else { "2 (<= 3 tasks) / 1 (<= 6 tasks) / 0 (pool), 1 (server N<=5) / 0" }
         )
     }
